@@ -221,7 +221,7 @@ NOTE_BEHAVIOURS = [
     {"status": 200, "ctype": "other", "body": "nonjson"},
 ]
 
-REQ_IDS = [1, 0, "abc", "123", 2**53 + 1, "u-é"]
+REQ_IDS = [1, 0, "abc", "123", 2**53 + 1, "u-é", "", -1]
 
 
 def gen_cases(ctx):
@@ -332,7 +332,8 @@ def reference(step: Dict[str, Any], req_wire: Dict[str, Any]) -> Dict[str, Any]:
 def exec_case(ctx, seq: List[Dict[str, Any]]) -> None:
     from chuk_mcp.transports.http.http_client import http_client
     from chuk_mcp.transports.http.parameters import StreamableHTTPParameters
-    from chuk_mcp.protocol.messages.json_rpc_message import create_request, create_notification
+    from chuk_mcp.protocol.messages.json_rpc_message import (create_request, create_notification, JSONRPCRequest,
+                                                               JSONRPCNotification)
 
     case = {"seq": seq}
     script = [s["beh"] for s in seq]
@@ -408,8 +409,13 @@ def exec_case(ctx, seq: List[Dict[str, Any]]) -> None:
                 burst = bool(seq and seq[0].get("burst"))
                 msgs = []
                 for k, step in enumerate(seq):
-                    if step["req"] == "request":
+                    if step["req"] == "request" and k % 2:
+                        # the envelope class instantiated directly, relying on its declared defaults
+                        msg = JSONRPCRequest(id=step["id"], method="tools/call", params={"name": "t", "arguments": {"x": TEXT, "n": None}})
+                    elif step["req"] == "request":
                         msg = create_request("tools/call", {"name": "t", "arguments": {"x": TEXT, "n": None}}, id=step["id"])
+                    elif k % 2:
+                        msg = JSONRPCNotification(method="notifications/roots/list_changed", params={})
                     else:
                         msg = create_notification("notifications/roots/list_changed", {})
                     wires.append(msg.model_dump(exclude_none=True))
